@@ -64,6 +64,9 @@ func tunnel(c *harness.Ctx) {
 			if a == nil {
 				continue
 			}
+			if c.Choose(6, "long-query") == 5 && lengthenQuery(c, a) {
+				c.Probe("query-of-several-thousand-bytes")
+			}
 			b := &Call{ID: len(calls), Res: rd, Method: a.Method, Args: a.Args, Expect: a.Expect, Out: a.Out, MustReject: a.MustReject, Desc: a.Desc + " [tunnelled twin]", Twin: a}
 			if a.Out.Lazy != nil {
 				ft := w.mocks[rd].Elem().FieldByName("Mock" + a.Method).Type()
@@ -314,4 +317,43 @@ func checkTwin(c *harness.Ctx, w *World, a, b *Call, world string) {
 			}
 		}
 	}
+}
+
+// lengthenQuery makes one string-valued query parameter of the call several thousand bytes long (in what is sent and
+// in what the resource is expected to receive): tunnelled requests then carry a query that does not fit any internal
+// buffer of a few kilobytes, with or without a body next to it.
+func lengthenQuery(c *harness.Ctx, call *Call) bool {
+	long := strings.Repeat("q", 3000+c.Choose(6000, "long-query-len"))
+	done := false
+	for i := range call.Args {
+		set := func(v reflect.Value) bool {
+			if v.Kind() != reflect.Ptr || v.IsNil() || v.Elem().Kind() != reflect.Struct || !strings.HasSuffix(v.Elem().Type().Name(), "Params") {
+				return false
+			}
+			for k := 0; k < v.Elem().NumField(); k++ {
+				f := v.Elem().Field(k)
+				switch {
+				case f.Kind() == reflect.String && f.CanSet():
+					f.SetString(long)
+					return true
+				case f.Kind() == reflect.Ptr && f.Type().Elem().Kind() == reflect.String && f.CanSet():
+					p := reflect.New(f.Type().Elem())
+					p.Elem().SetString(long)
+					f.Set(p)
+					return true
+				}
+			}
+			return false
+		}
+		if set(call.Args[i]) {
+			done = true
+			if i < len(call.Expect) && call.Expect[i].IsValid() && call.Expect[i].Kind() == reflect.Ptr && !call.Expect[i].IsNil() && call.Expect[i].Pointer() != call.Args[i].Pointer() {
+				set(call.Expect[i])
+			}
+		}
+	}
+	if done {
+		call.Desc += " [long query]"
+	}
+	return done
 }
